@@ -84,7 +84,6 @@ Inductive rel_val (m : world) : val nat -> val loc -> Prop :=
 | rv_undef : rel_val m VUndef VUndef
 | rv_bool : forall b, rel_val m (VBool b) (VBool b)
 | rv_int : forall z, rel_val m (VInt z) (VInt z)
-| rv_flt : forall z, rel_val m (VFlt z) (VFlt z)
 | rv_nan : rel_val m VNaN VNaN
 | rv_str : forall t, rel_val m (VStr t) (VStr t)
 | rv_err : forall k, rel_val m (VErr k) (VErr k)
@@ -407,7 +406,7 @@ Qed.
 
 Lemma sim_setvar : forall cur m rS rI x v w, rel_env (Some cur) m rS rI -> ref_ok (shape rI) x = true ->
   rel_val m v w ->
-  sim rel_unit cur m (setvar Smem pm tt rS x v) (setvar (Imem al) pm cur rI x w).
+  sim rel_unit cur m (setvar Smem tt rS x v) (setvar (Imem al) cur rI x w).
 Proof.
   intros. unfold setvar. norm. pose proof (lookup_rel _ _ _ _ x H) as L.
   destruct (lookup rS x), (lookup rI x); try tauto.
@@ -415,7 +414,7 @@ Proof.
     eapply sim_bind. apply sim_readc; auto.
     intros m' [k1 o1] [k2 o2] E [C1 C2]; simpl in *. subst k2. unfold rel_oval in C2. destruct o1, o2; try tauto.
     + destruct k1. apply sim_throwE. apply sim_writec; eauto with c02. split; simpl; eauto with c02.
-    + destruct pm, k1; apply sim_throwE.
+    + apply sim_throwE.
   - apply sim_throwE.
 Qed.
 
@@ -525,16 +524,6 @@ Proof.
   - apply sim_oof.
 Qed.
 
-Lemma sim_incdec_goja : forall cur m inc v w, rel_val m v w ->
-  sim rel_val cur m (incdec_goja Smem inc v) (incdec_goja (Imem al) inc w).
-Proof.
-  intros. unfold incdec_goja. norm. pose proof (rel_val_to_num _ _ _ H) as N.
-  destruct H; try apply sim_mknum; simpl in *;
-    try (apply sim_ret; intros; constructor);
-    try (destruct (str_num t) as [z|]; [destruct (_ && _); [apply sim_ret; intros; constructor | apply sim_oof] | apply sim_ret; intros; constructor]);
-    try (destruct (_ && _); [apply sim_ret; intros; constructor | apply sim_oof]).
-Qed.
-
 Lemma rel_binop : forall m o v1 w1 v2 w2, rel_val m v1 w1 -> rel_val m v2 w2 ->
   match binop_eval o v1 v2, binop_eval o w1 w2 with
   | Some x, Some y => forall m1, ext m m1 -> rel_val m1 x y
@@ -586,11 +575,6 @@ Definition lv_ok (cur : nat) (m : world) (lvS : option (bid * name * nat)) (lvI 
       b = b' /\ x = x' /\ loc_match (Some cur) m a l /\ l <> Foreign /\ kind_loc l = kind_of al b
   | _, _ => False
   end.
-
-Lemma sim_match_pm : forall T T' (R : world -> T -> T' -> Prop) cur m (a b : MS T) (a' b' : MI T'),
-  sim R cur m a a' -> sim R cur m b b' ->
-  sim R cur m (match pm with PGoja | PGojaC => a | _ => b end) (match pm with PGoja | PGojaC => a' | _ => b' end).
-Proof. intros; destruct pm; auto. Qed.
 
 Lemma sim_catch : forall T T' U U' (R : world -> T -> T' -> Prop) (R2 : world -> U -> U' -> Prop) cur m
     (cS : MS T) (cI : MI T') hS hI (kS : T -> MS U) (kI : T' -> MI U'),
@@ -707,11 +691,8 @@ Proof.
       destruct (truthy w). apply sim_ret; eauto with c02. apply IHe; eauto with c02.
     + sbind. apply sim_getvar; auto. intros m1 old old' E1 R1.
       destruct (uflag pm u).
-      * apply sim_match_pm.
-        -- sbind. apply sim_incdec_goja; eauto. intros m2 nw nw' E2 R2.
-           sbind. apply sim_setvar; eauto with c02. intros. apply sim_ret; intros; constructor.
-        -- sbind. apply sim_incdec_used; eauto. intros m2 p p' E2 [P1 P2].
-           sbind. apply sim_setvar; eauto with c02. intros. apply sim_ret; intros; constructor.
+      * sbind. apply sim_incdec_used; eauto. intros m2 p p' E2 [P1 P2].
+        sbind. apply sim_setvar; eauto with c02. intros. apply sim_ret; intros; constructor.
       * sbind. apply sim_incdec_used; eauto. intros m2 p p' E2 [P1 P2].
         sbind. apply sim_setvar; eauto with c02. intros. apply sim_ret; intros. destruct pre; eauto with c02.
   - (* call *)
@@ -851,26 +832,11 @@ Proof.
 Qed.
 
 (* ---------------------------------------------------------------------------------------- *)
-(* refutations (faithful transcriptions of goja that differ from the definition) *)
+(* goja's emission of && / || with a constant left operand is stack-balanced (after fix 06cb082) *)
 
-Definition p_incdec : stmt :=           (* var q = "2"; q++; log(q); *)
-  SSeq (SVar 1%N 0%N (EConst (CStr 7%N))) (SSeq (SExpr (EIncDec false true 0%N)) (SLog (EVar 0%N))).
-
-Lemma incdec_unused_refuted : exists p n, run_env_pm PGoja n p <> run_env n p.
-Proof. exists p_incdec, 10. vm_compute. intro H; discriminate H. Qed.
-
-Lemma incdec_unused_sound_example : run_env_pm PUnused 10 p_incdec = run_env 10 p_incdec.
-Proof. vm_compute. reflexivity. Qed.
-
-Definition p_const_tdz : stmt :=        (* c = 1; const c = 2; *)
-  SSeq (SExpr (EAssign 7%N (EConst (CInt 1%Z)))) (SConst 1%N 7%N (EConst (CInt 2%Z))).
-
-Lemma const_tdz_assign_refuted : exists p n, run_env_pm PGojaC n p <> run_env n p.
-Proof. exists p_const_tdz, 10. vm_compute. intro H; discriminate H. Qed.
-
-Lemma constfold_goja_refuted : exists putOnStack left_truthy,
-  goja_and_const_left putOnStack left_truthy <> want putOnStack.
-Proof. exists false, false. vm_compute. intro H; discriminate H. Qed.
+Lemma goja_and_const_left_balanced : forall putOnStack left_truthy,
+  goja_and_const_left putOnStack left_truthy = want putOnStack.
+Proof. destruct putOnStack, left_truthy; reflexivity. Qed.
 
 Lemma goja_or_const_left_balanced : forall putOnStack left_truthy,
   goja_or_const_left putOnStack left_truthy = want putOnStack.
@@ -891,7 +857,7 @@ Proof.
   intros. subst r1 r2. cbn [eval uflag]. unfold bind.
   destruct (getvar MM c rho x s) as [[old|e] s1]; simpl; auto.
   destruct (incdec_used MM inc old s1) as [[on|e] s2]; simpl; auto.
-  destruct (setvar MM PUnused c rho x (snd on) s2) as [[?|e] s3]; simpl; auto.
+  destruct (setvar MM c rho x (snd on) s2) as [[?|e] s3]; simpl; auto.
 Qed.
 
 (* non-vacuity: a program with a captured and an uncaptured binding; the minimal allocation is
